@@ -2,6 +2,7 @@ package main
 
 import (
 	"fmt"
+	"go/token"
 	"go/types"
 	"reflect"
 	"strconv"
@@ -18,12 +19,12 @@ const (
 
 func init() {
 	register(&Property{
-		ID:        "C19",
-		Title:     "Generated connection files are well-formed and round-trip through the parser",
-		DesignRef: "DESIGN.md §3 C19",
-		Technique: "static evaluation of RdpSettings' struct tags (finite table) + exhaustiveness of the kind switches + path enumeration of the line writer's loop body (token sequence per kind) + sibling agreement of Marshal/Unmarshal type letters and error discipline of the parser + dominance of the forced settings",
-		LevelText: "Static: the settings table both sides are generated from is checked — every field has a distinct, colon- and newline-free rdp name, a default that parses for its kind, and one of the three handled kinds; each kind switch handles exactly those kinds and both default readers accept the same bool literals; every path through the line writer's loop body that writes anything writes name, ':', the type letter of the field's kind, the value, CRLF in that order; 'is default' is decided by an equality with the parsed default (IsZero only without a default tag); the parser splits each line into exactly three fields at the first two ':' and every malformed line (field count, unknown letter, bad integer) ends the parse with an error instead of continuing; Marshal's letters are accepted by Unmarshal with the inverse conversion; the gateway-controlled settings are stored after the template is loaded and before the file is rendered, on every path. Decides the finite tables and the shape of each line; not parse(marshal(m)) == m for all values.",
-		LevelNote: "Trusted: fatih/structs (field iteration, tags, kinds), mapstructure/koanf template decoding, bufio.Scanner. Not decided: round-trip equality for all values (trimming, Scanner line limits), which template settings survive decoding.",
+		ID:          "C19",
+		Title:       "Generated connection files are well-formed and round-trip through the parser",
+		DesignRef:   "DESIGN.md §3 C19",
+		Technique:   "static evaluation of RdpSettings' struct tags (finite table) + exhaustiveness of the kind switches + path enumeration of the line writer's loop body (token sequence per kind) + sibling agreement of Marshal/Unmarshal type letters and error discipline of the parser + dominance of the forced settings",
+		LevelText:   "Static: the settings table both sides are generated from is checked — every field has a distinct, colon- and newline-free rdp name, a default that parses for its kind, and one of the three handled kinds; each kind switch handles exactly those kinds and both default readers accept the same bool literals; every path through the line writer's loop body that writes anything writes name, ':', the type letter of the field's kind, the value, CRLF in that order; 'is default' is decided by an equality with the parsed default (IsZero only without a default tag); the parser splits each line into exactly three fields at the first two ':' and every malformed line (field count, unknown letter, bad integer) ends the parse with an error instead of continuing; Marshal's letters are accepted by Unmarshal with the inverse conversion; the gateway-controlled settings are stored after the template is loaded and before the file is rendered, on every path. Decides the finite tables and the shape of each line; not parse(marshal(m)) == m for all values.",
+		LevelNote:   "Trusted: fatih/structs (field iteration, tags, kinds), mapstructure/koanf template decoding, bufio.Scanner. Not decided: round-trip equality for all values (trimming, Scanner line limits), which template settings survive decoding.",
 		Explanation: "C19/tags evaluates the struct tags of rdp.RdpSettings from go/types. C19/kinds collects the reflect.Kind constants each switch compares with. C19/line-shape enumerates the acyclic paths of one loop iteration of addStructToString as token sequences. C19/default-compare cuts equality edges in isZero. C19/parser checks SplitN's arguments, the three-field test and that every malformed-line edge cannot reach the loop head again. C19/letters compares Marshal's format strings with Unmarshal's accepted letters. C19/forced checks the stores in HandleDownload.",
 		Assumptions: []string{"values free of CR/LF (as in the property's quantifier)"},
 		Rules: []RuleDef{
@@ -132,15 +133,24 @@ func c19Kinds(c *Ctx) {
 	// bool default literals
 	lits := func(fn *ssa.Function) string {
 		set := map[string]bool{}
-		eachInstr(fn, func(in ssa.Instruction) {
-			if bo, ok := in.(*ssa.BinOp); ok {
-				for _, v := range []ssa.Value{bo.X, bo.Y} {
-					if s, ok := constString(v); ok && s != "" {
-						set[s] = true
+		var scan func(f *ssa.Function, depth int)
+		scan = func(f *ssa.Function, depth int) {
+			eachInstr(f, func(in ssa.Instruction) {
+				if bo, ok := in.(*ssa.BinOp); ok {
+					for _, v := range []ssa.Value{bo.X, bo.Y} {
+						if s, ok := constString(v); ok && s != "" {
+							set[s] = true
+						}
 					}
 				}
-			}
-		})
+				if ci, ok := in.(ssa.CallInstruction); ok && depth < 1 {
+					if cal := ci.Common().StaticCallee(); cal != nil && IsFirstParty(cal) && cal.Blocks != nil && cal.Pkg == fn.Pkg {
+						scan(cal, depth+1) // e.g. a shared parseBool helper
+					}
+				}
+			})
+		}
+		scan(fn, 0)
 		return strings.Join(sortedKeys(set), ",")
 	}
 	a, b := lits(c.Fn("cmd/rdpgw/rdp", "isZero")), lits(c.Fn("cmd/rdpgw/rdp", "setVariable"))
@@ -306,6 +316,11 @@ func c19DefaultCompare(c *Ctx) {
 		}
 		b, isC := constBool(v)
 		if !isC {
+			// return value == default  (the comparison itself is the result)
+			if bo, ok := strip(v).(*ssa.BinOp); ok && (bo.Op == token.EQL || bo.Op == token.NEQ) && (fromValue(bo.X) || fromValue(bo.Y)) {
+				c.Check(bo.Op == token.EQL, rule, key+" compare", r.Pos(), "'is default' is the equality of the field's value with its parsed default", "'is default' is computed as an inequality with the default")
+				continue
+			}
 			c.Undecided(rule, key, r.Pos(), "non-constant result")
 			continue
 		}
@@ -317,7 +332,7 @@ func c19DefaultCompare(c *Ctx) {
 			c.Check(ok2, rule, key+" false", r.Pos(), "'differs' only over value != parsed default", "'differs from default' is returned "+why+" of the comparison")
 		}
 	}
-	c.Floor(rule, 7, "returns of isZero")
+	c.Floor(rule, 4, "returns of isZero (IsZero fallbacks + one comparison per kind)")
 }
 
 func c19Parser(c *Ctx) {
@@ -516,7 +531,7 @@ func c19Forced(c *Ctx) {
 	}
 	d := recvOf(str)
 	// d is NewBuilder() or NewBuilderFromFile(): forced settings are stored into that very builder
-	for _, o := range origins(d) {
+	for _, o := range c.originsDeep(d, 0, rdpPkgPath+".NewBuilder", rdpPkgPath+".NewBuilderFromFile") {
 		if o.Kind != "call" || !(calleeName(o.Call) == rdpPkgPath+".NewBuilder" || calleeName(o.Call) == rdpPkgPath+".NewBuilderFromFile") {
 			c.Bad(rule, "HandleDownload builder", str.Pos(), "the rendered builder is %s", o.String())
 		}
